@@ -275,8 +275,17 @@ class PathCtx:
             t = z3.BoolVal(False)
         else:
             t = tb(f)
-        verdict, backend, detail = self.run.prove(self, t)
-        if f is False and verdict == "unknown" and not _has_quantifier(self.pc):
+        if f is False:
+            # constant False: decided by reachability of the path (quantifier-free part), no need to run the provers
+            self.qf.set("timeout", 2000)
+            quick = self.qf.check()
+            self.qf.set("timeout", Z3_QUICK_MS)
+            verdict, backend, detail = ("refuted", "z3", {"reachable": True}) if quick == z3.sat else self.run.prove(self, t)
+        else:
+            verdict, backend, detail = self.run.prove(self, t)
+        if f is False and verdict == "unknown":
+            # the obligation is the constant False: it fails iff the path is reachable; the quantifier-free part of the
+            # path condition being satisfiable is taken as reachable (the quantified part are library axioms / lemmas)
             self.qf.set("timeout", 2000)
             if self.qf.check() == z3.sat:
                 verdict = "refuted"
@@ -393,6 +402,8 @@ class PathCtx:
         env = Env(None)
         interp.bind_args(fnode, args, kwargs, node, env)
         a = Namespace(env.vars)
+        self.interp = interp          # result builders of stub contracts may evaluate closures passed as arguments
+        self.call_node = node
         label = C.short + "@L%s" % getattr(node, "lineno", "?")
         self.run.relies_on.add(C.target)
         if C.requires is not None:
